@@ -12,6 +12,8 @@
 From Coq Require Import ZArith QArith List Bool Arith Lia.
 Import ListNotations.
 From Inf Require Import proofs.PermGlynnGenP proofs.PermGlynnGrayP proofs.PermQuickSpecP.
+From Inf Require Import proofs.PermPermanentP proofs.PermPermuteP proofs.PermBlockP proofs.PermBlockLoopP proofs.PermFastFamilyP proofs.PermFamilyP.
+From Coq Require Import Permutation.
 From Inf Require Import model.PermM spec.PermS proofs.PermSpecP proofs.PermP proofs.PermQuickP
   proofs.PermGlynnP proofs.PermGlynn7P proofs.PermIdleP proofs.PermTieP proofs.PermBoundAP proofs.PermBoundBP proofs.PermBoundCP.
 Open Scope Q_scope.
@@ -266,6 +268,116 @@ Theorem C02_quick_prob_eq_Pspec_uniform_rows : forall n k (w : nat -> Q) arr,
   mget (quick_prob arr) i j == Pspec n (of_lists arr) i j.
 Proof. exact quick_prob_eq_Pspec_uniform_rows. Qed.
 Print Assumptions C02_quick_prob_eq_Pspec_uniform_rows.
+
+(* ================================================================== *)
+(* 3c. inf_retis = Pspec for EVERY size                                   *)
+
+(* the permanent path: permanent_prob (row rescaling, Glynn on every minor, normalisation by the
+   largest row sum) returns the permanent ratios of every n x n matrix, n >= 2, with no all-zero
+   row and a non-zero permanent *)
+Theorem C02_permanent_prob_eq_Pspec : forall n arr,
+  (2 <= n)%nat -> square n arr ->
+  Forall (fun row => ~ qmaxl row == 0) arr ->
+  ~ perm n (of_lists arr) == 0 ->
+  exists P, permanent_prob arr = Some P /\ square n P /\
+            forall i j, (i < n)%nat -> (j < n)%nat -> mget P i j == Pspec n (of_lists arr) i j.
+Proof. exact permanent_prob_eq_Pspec. Qed.
+Print Assumptions C02_permanent_prob_eq_Pspec.
+
+(* sorting / un-sorting: Pspec is equivariant under every permutation of rows and of columns *)
+Theorem C02_Pspec_permute_rows : forall n idx W i j, Permutation idx (seq 0 n) ->
+  (i < n)%nat -> (j < n)%nat ->
+  Pspec n (rows_of idx W) i j == Pspec n W (nth i idx O) j.
+Proof. exact Pspec_permute_rows. Qed.
+Print Assumptions C02_Pspec_permute_rows.
+
+Theorem C02_Pspec_permute_cols : forall n idx W i j, Permutation idx (seq 0 n) ->
+  (i < n)%nat -> (j < n)%nat ->
+  Pspec n (cols_of idx W) i j == Pspec n W i (nth j idx O).
+Proof. exact Pspec_permute_cols. Qed.
+Print Assumptions C02_Pspec_permute_cols.
+
+(* the block-wise path: for a block lower-triangular matrix (any list of block sizes) the permanent
+   is the product of the permanents of the diagonal blocks, and Pspec is the Pspec of the diagonal
+   block inside a block and 0 outside (also where W itself is not 0) *)
+Theorem C02_perm_blocks : forall bs W, blt bs 0 W -> perm (total bs) W == blockperm bs 0 W.
+Proof. exact perm_blocks. Qed.
+Print Assumptions C02_perm_blocks.
+
+Theorem C02_Pspec_blocks : forall bs W i j, blt bs 0 W -> blocks_nz bs 0 W ->
+  (i < total bs)%nat -> (j < total bs)%nat ->
+  Pspec (total bs) W i j == Pblocks bs 0 W i j.
+Proof. exact Pspec_blocks. Qed.
+Print Assumptions C02_Pspec_blocks.
+
+(* the whole of inf_retis (drop busy rows/columns, sort, equal test, quick_prob or find_blocks +
+   block loop, un-sort, the two allclose assertions, re-insert) on the reachable family, EVERY
+   number of ensembles, every busy set, rows in any order: *)
+(* - 0/1 staircases (the bounded theorem 3/5 without its bound) *)
+Theorem C02_inf_retis_eq_Pspec_staircase01 : forall rp ks lk,
+  (forall k, In k ks -> (1 <= k <= length ks)%nat) ->
+  length lk = S (length ks) ->
+  refines_Pspec rp (stair_matrix ks) (lk ++ [true]).
+Proof. exact stair01_refines. Qed.
+Print Assumptions C02_inf_retis_eq_Pspec_staircase01.
+
+(* - one arbitrary non-zero weight per path (the all-equal fast path) *)
+Theorem C02_inf_retis_eq_Pspec_uniform_weights : forall rp rows lk,
+  (forall row, In row rows ->
+     (1 <= length row <= length rows)%nat /\ exists w, ~ w == 0 /\ row = repeat w (length row)) ->
+  length lk = S (length rows) ->
+  refines_Pspec rp (wstair_matrix rows) (lk ++ [true]).
+Proof. exact wstair_uniform_refines. Qed.
+Print Assumptions C02_inf_retis_eq_Pspec_uniform_weights.
+
+(* - arbitrary positive weights (wire fencing): exact whenever every non-uniform block that
+     find_blocks returns has at most 12 paths (larger ones go to the Monte-Carlo random_prob,
+     which is outside the exactness claim) *)
+Theorem C02_inf_retis_eq_Pspec_positive_weights : forall rp rows (b0 : bool) lk',
+  (forall row, In row rows -> (1 <= length row <= length rows)%nat /\ forall w, In w row -> 0 < w) ->
+  length lk' = length rows ->
+  (forall blocks st en d,
+     find_blocks (sorted_unlocked rows b0 lk') (if b0 then 0 else 1)%nat = FBlist blocks ->
+     In (st, en, d) blocks ->
+     rows_equal_or_zero (subarr_of (sorted_unlocked rows b0 lk') st (en - st)) 0 = false ->
+     (en - st <= 12)%nat) ->
+  refines_Pspec rp (wstair_matrix rows) (b0 :: lk' ++ [true]).
+Proof. exact wstair_positive_refines. Qed.
+Print Assumptions C02_inf_retis_eq_Pspec_positive_weights.
+
+(* - in particular with at most 12 idle plus ensembles *)
+Theorem C02_inf_retis_eq_Pspec_positive_weights_le12 : forall rp rows (b0 : bool) lk',
+  (forall row, In row rows -> (1 <= length row <= length rows)%nat /\ forall w, In w row -> 0 < w) ->
+  length lk' = length rows ->
+  (length (idle_idx (lk' ++ [true])) <= 12)%nat ->
+  refines_Pspec rp (wstair_matrix rows) (b0 :: lk' ++ [true]).
+Proof. exact wstair_positive_refines_le12. Qed.
+Print Assumptions C02_inf_retis_eq_Pspec_positive_weights_le12.
+
+(* the hypotheses are satisfiable: four plus ensembles with wire-fencing weights, one busy *)
+Definition C02_ex_rows : list (list Q) := [[2; 3]; [1]; [1; 1; 5 # 2; 4]; [3; 3; 7]].
+Example C02_inf_retis_positive_example :
+  (forall row, In row C02_ex_rows -> (1 <= length row <= length C02_ex_rows)%nat /\ forall w, In w row -> 0 < w) /\
+  idle_idx (false :: [false; true; false; false] ++ [true]) <> [] /\
+  ~ perm (length (idle_idx (false :: [false; true; false; false] ++ [true])))
+         (of_lists (idle_block (wstair_matrix C02_ex_rows) (false :: [false; true; false; false] ++ [true]))) == 0 /\
+  exists P, inf_retis (fun M => M) 1 (wstair_matrix C02_ex_rows) (false :: [false; true; false; false] ++ [true]) = Some P /\
+            is_Pspec_on_idle (wstair_matrix C02_ex_rows) (false :: [false; true; false; false] ++ [true]) (mget P).
+Proof.
+  assert (H : forall row, In row C02_ex_rows ->
+                (1 <= length row <= length C02_ex_rows)%nat /\ forall w, In w row -> 0 < w).
+  { intros row Hr. cbn in Hr.
+    repeat (destruct Hr as [<-|Hr]; [split; [cbn; lia | intros w Hw; cbn in Hw;
+      repeat (destruct Hw as [<-|Hw]; [reflexivity|]); contradiction]|]). contradiction. }
+  split; [exact H|].
+  assert (Hi : idle_idx (false :: [false; true; false; false] ++ [true]) <> []) by (vm_compute; discriminate).
+  assert (Hp : ~ perm (length (idle_idx (false :: [false; true; false; false] ++ [true])))
+         (of_lists (idle_block (wstair_matrix C02_ex_rows) (false :: [false; true; false; false] ++ [true]))) == 0)
+    by (vm_compute; discriminate).
+  split; [exact Hi|]. split; [exact Hp|].
+  apply (C02_inf_retis_eq_Pspec_positive_weights_le12 (fun M => M) C02_ex_rows false [false; true; false; false] H);
+    [reflexivity | vm_compute; lia | exact Hi | exact Hp].
+Qed.
 
 (* ================================================================== *)
 (* 4. Glynn's formula = permanent                                        *)
